@@ -70,6 +70,15 @@ PROPS["C09"] = {
     "runs": [
         R("mikey-total", "pkg/mikey", "pkg/mikey", ["ZzC09MikeyTotal"], flags={"concoff": True}, quick_params={"P": 24}, thorough_params={"P": 32}),
         R("session", "pkg/headers", "pkg/headers", ["ZzC09SessionRT", "ZzC09SessionTotal"], flags={"concoff": True, "qtimeout": 120000}, quick_params={"P": 8}, thorough_params={"P": 10}),
+        R("transport-rt-combos", "pkg/headers", "pkg/headers", ["ZzC09TransportRT"], flags={"concoff": True, "qtimeout": 60000}, params={"FIELD": -1}),
+    ] + [
+        R("transport-rt-field%d%s" % (f, sfx), "pkg/headers", "pkg/headers", ["ZzC09TransportRT"], flags={"concoff": True, "qtimeout": 60000}, params=dict({"FIELD": f}, **extra),
+          tiers=tiers)
+        for (f, sfx, extra, tiers) in [
+            (0, "", {"PORTQ": 65535}, ("quick", "thorough")), (0, "-swap", {"PORTQ": 0, "PSWAP": 1}, ("thorough",)),
+            (1, "", {"PORTQ": 1}, ("thorough",)), (2, "", {"PORTQ": 65535, "PSWAP": 1}, ("thorough",)),
+            (3, "", {}, ("thorough",)), (4, "", {}, ("quick", "thorough")), (5, "", {}, ("quick", "thorough"))]
+    ] + [
         R("npt-exact", "pkg/headers", "pkg/headers", ["ZzC09RangeNPT"], flags={"qtimeout": 600000, "workers": 2}, quick_params={"KMAX": 255}, thorough_params={"KMAX": 2047}),
         R("npt-ideal", "pkg/headers", "pkg/headers", ["ZzC09RangeNPT"], flags={"solver": "cvc5-int", "fpreal": True, "qtimeout": 300000, "workers": 2}, params={"KMAX": 1 << 30}),
         R("determinism", "pkg/headers", "pkg/headers", ["ZzC09TransportDeterministic", "ZzC09RangeDeterministic"], flags={"mapperm": True},
@@ -90,6 +99,8 @@ PROPS["C18"] = {
         R("start-validation", ".", "root", ["ZzC18ServerStart", "ZzC18ClientStart"], params={"GOSTUB": 1}, extras=_EXTRAS),
         R("write-paths", ".", "root", ["ZzC18ClientWriteRTP", "ZzC18StreamWriteRTP", "ZzC18SessionWriteRTP", "ZzC18WriteRTCP"], params={"GOSTUB": 1}, extras=_EXTRAS,
           quick_params={"P": 12, "MAXPS": 36}, thorough_params={"P": 40, "MAXPS": 80, "NREP": 8}),
+        R("srtp-sizes", ".", "root", ["ZzC18ClientSRTPSizes"], params={"GOSTUB": 1, "MKI": 0}, extras=_EXTRAS),
+        R("srtp-sizes-mki", ".", "root", ["ZzC18ClientSRTPSizes"], params={"GOSTUB": 1, "MKI": 1}, extras=_EXTRAS),
     ],
 }
 PROPS["C01"] = {
@@ -107,7 +118,7 @@ PROPS["C19"] = {
 }
 PROPS["C20"] = {
     "claimed": False, "level_text": "tbd", "level_note": "tbd",
-    "runs": [R("split", ".", "root", ["ZzC20Split"], params={"GOSTUB": 1}, extras=_EXTRAS, quick_params={"PL": 6, "QL": 6}, thorough_params={"PL": 10, "QL": 10})],
+    "runs": [R("split", ".", "root", ["ZzC20Split", "ZzC20SplitLookalike"], params={"GOSTUB": 1}, extras=_EXTRAS, quick_params={"PL": 6, "QL": 6}, thorough_params={"PL": 10, "QL": 10})],
 }
 
 # ---------------------------------------------------------------- C04
